@@ -11,6 +11,7 @@ EXPLANATION = (
     "shared pointer, reference, raw pointer or cell, so the clone shares nothing with the live machine. R4: the reset arm "
     "assigns the whole state from a clone of the saved state and writes nothing afterwards. Immutability + deep copy + "
     "total assignment give the property for every history."
+    ' R2 follows the snapshot across the constructor (clone taken by the caller or by Debugger::new). R3 accepts a hand-written Clone only if it is the field-by-field expansion of the derive.'
 )
 NOT_DECIDED = "that debugger-side fields (breakpoints, counters) also look like a fresh run after reset"
 
